@@ -2728,6 +2728,9 @@ class SSHConnection(SSHPacketHandler, asyncio.Protocol):
         if b'dropbear' in self._client_version and self._compressor:
             send_pktsize -= 1
 
+        if send_pktsize < 1:
+            raise ProtocolError('Invalid maximum packet size')
+
         try:
             chantype = chantype_bytes.decode('ascii')
         except UnicodeDecodeError:
@@ -2767,6 +2770,9 @@ class SSHConnection(SSHPacketHandler, asyncio.Protocol):
         # https://github.com/mkj/dropbear/commit/49263b5
         if b'dropbear' in self._server_version and self._compressor:
             send_pktsize -= 1
+
+        if send_pktsize < 1:
+            raise ProtocolError('Invalid maximum packet size')
 
         chan = self._channels.get(recv_chan)
         if chan:
